@@ -59,7 +59,8 @@ CLAIMED["C12"] = dict(
          "the three controller guards with the literal cap 5 (every restart reachable for SubmissionFailed passes the cap "
          "test, also when SubmissionFailed is listed in restartHookOn), schema exclusion of Killed/Cancelled, refusal paths of "
          "ComponentState.restart / RepeatingEngine.restart, and final state after a refused restart. With the counting "
-         "argument on the loop-free restart function this bounds restarts for every exit-reason sequence and hook outcome.",
+         "argument on the loop-free restart function this bounds restarts for every exit-reason sequence and hook outcome."
+         " A relaunch starts from reset per-execution fields; the repeating engine's single restart respects maxRestarts; every caller of _restartComponent gives a final state for every refusal code.",
     technique="CFG edge-dominance, reaching definitions, value-class product reachability, linear comparison "
               "normalisation, who-may-write",
     design="3/C12")
@@ -72,7 +73,8 @@ CLAIMED["C13"] = dict(
          "kill timer), and an expired kill delay is serviced by the next pass (every feasible "
          "path that sees _suicide with lastAction False reaches kill(); feasibility = consistency of repeated tests of "
          "lastAction/_suicide and their copies). The timing quantifier (where the notification lands between polls, NFS "
-         "latency) cannot be bounded statically and is not claimed.",
+         "latency) cannot be bounded statically and is not claimed."
+         " The success test of the decision reads the task generated in the same pass and never a None.",
     technique="CFG edge-dominance and must-pass-through, path-consistent product reachability over stable flags, "
               "reaching definitions of the snapshot, who-may-write",
     design="3/C13")
@@ -116,7 +118,8 @@ CLAIMED["C19"] = dict(
          "is known, tested by a reader branch, stored into the same FlowIR path, with a converter of the matching kind; "
          "translate maps inverse; status/output section keys agree; known keys without reader branch are reported; writer converters are total over non-None values (a key is omitted "
          "only under a None-identity test). "
-         "Value equality after a full round trip is not decided.",
+         "Value equality after a full round trip is not decided."
+         " The option tables are static (accessors stateless and fresh, no in-place mutation); writer converters change the case of boolean constants only; the parser neither interpolates nor validates '%'.",
     technique="writer/reader table extraction from dict/lambda literals and an if/elif chain, set comparison",
     design="3/C19")
 
@@ -137,7 +140,8 @@ CLAIMED["C15"] = dict(
          "keep the caller's order and fold last-wins, the hash routine iterates only through sorted(), names are "
          "numbered over ordered containers; single-pass substitutions (Template wrappers) never use a context mapping that "
          "is stored into in the same loop over it. Holds for every hash seed / directory order; equality of full dumps across "
-         "processes is not run, networkx-internal ordering is an assumption.",
+         "processes is not run, networkx-internal ordering is an assumption."
+         " No function of the load-path modules stores a mutable object into class-level state; de-duplication of variable files keeps the last occurrence.",
     technique="intra-procedural order-taint (set-typedness inference + sink classification) with a frozen exemption table",
     design="3/C15")
 
@@ -161,7 +165,8 @@ CLAIMED["C09"] = dict(
          "formula, the weaker never-expand clauses of expand_potential_component_reference, reserved-folder sets always "
          "containing the special folders and mapped application dependencies, manifest keys split on the path separator "
          "(os.pathsep only on environment values), and no stage index for absolute paths. Round-trip and idempotence "
-         "equalities over all strings are not decided.",
+         "equalities over all strings are not decided."
+         " Reserved-folder collections are decided by a must-inclusion analysis on every path (INCL engine) and the class-level reserved collections are never mutated in place (alias-aware).",
     technique="format/split constant agreement, finite truth tables of classifier predicates (sibling cross-check), "
               "CFG edge-dominance",
     design="3/C09")
@@ -172,7 +177,8 @@ CLAIMED["C18"] = dict(
          "raises before extractall/copytree/copy/symlink; link members must be examined (or a safe extraction filter "
          "passed); copy/link destinations are <working dir>/<basename>; rejections surface as the staging/packaging "
          "error. Decided for every archive and manifest at once; two genuine defects were repaired by fix: commits. The "
-         "file-system effect of a concrete archive is not executed.",
+         "file-system effect of a concrete archive is not executed."
+         " Members that pass through symbolic links of the archive itself are rejected before extraction; files written after the manifest was applied go into folders created by the deployment or tested to be inside the instance.",
     technique="source-to-sink path-expression analysis (normalisation + containment recognition), CFG dominance, "
               "handler/raise class agreement",
     design="3/C18")
@@ -185,7 +191,8 @@ CLAIMED["C16"] = dict(
          "missing or anything fails (CFG specialised on fuzzy=False); fuzzy rule as an 8-row truth table; anchored "
          "longest-first substitution; sorted hash traversal; cache/reset discipline; the computation keeps no state on the component or "
          "module between calls. The 'exactly when' equivalence "
-         "over all pairs of definitions is not decided.",
+         "over all pairs of definitions is not decided."
+         " The hashed executable is the component's own (blueprint chosen by existence, never by the spelling of the name) after variable substitution.",
     technique="backward data slice for non-interference, CFG specialisation, finite truth table, SUB, table checks",
     design="3/C16")
 
@@ -210,7 +217,8 @@ CLAIMED["C07"] = dict(
          "the copy that is stored is taken; the dumped object is instance()'s output passed through "
          "key-preserving functions only; the flattening of the four variable scopes in instance() lets the same "
          "scope win as the live resolver get_component_variables for all 16+4 scope-membership patterns of a name "
-         "(abstract interpretation of the dictionary layering). Equality of resolved configurations after a reload is not decided.",
+         "(abstract interpretation of the dictionary layering). Equality of resolved configurations after a reload is not decided."
+         " The store function writes and publishes on every normal return (no silent early return).",
     technique="writer/schema key-set agreement, CFG edge-dominance and statement-order (must-pass-through) checks, "
               "abstract interpretation of dict layering over a finite membership domain (sibling agreement)",
     design="3/C07")
@@ -224,7 +232,8 @@ CLAIMED["C11"] = dict(
          "from the loader; the graph sorted topologically in propagate_replicate receives an edge for every component "
          "reference), defaults are admitted by the closed schema, and every component is resolved inside a "
          "recording catch-all; the undefined-variable detector is strict (C04.R5/R8 analysis re-used). Implicit exceptions outside try blocks and front-end work before this loader are outside "
-         "the model; acceptance => usability for all documents is not decided.",
+         "the model; acceptance => usability for all documents is not decided."
+         " The merge hands every key of the component document to the closed-schema check (novel keys are copied whatever their value).",
     technique="explicit-raise escape analysis over a name-resolved call graph, call-graph reachability of detectors, "
               "table agreement, CFG must-pass-through",
     design="3/C11")
